@@ -52,6 +52,7 @@ func (d *Downloader) Run(ctx context.Context) error {
 		// Keep retrying on error.
 		// If a newer snapshot shows up, switch to that one.
 		// If a snapshot disappears, this will be reflected in the last seen.
+		failed := false
 		for {
 			// Get last one seen by Receiver
 			d.r.mu.Lock()
@@ -65,12 +66,23 @@ func (d *Downloader) Run(ctx context.Context) error {
 			}
 
 			if ni.FullName == d.last.FullName {
+				if failed {
+					// The last attempt marked this snapshot as corrupt, but the
+					// Receiver has not listed again yet to replace it by an
+					// older one. For our own instance no new signal will
+					// announce that, so keep checking instead of waiting.
+					if err := utils.SleepContext(ctx, d.c.StorageRetryInterval); err != nil {
+						return err // cancelled
+					}
+					continue
+				}
 				break // already processed the most recent one
 			}
 
 			// Do one load attempt
 			if err := d.LoadOnce(ctx, ni); err != nil {
 				d.l.WithError(err).WithField("filename", ni.FullName).Warn("Load error")
+				failed = true
 				if err := utils.SleepContext(ctx, d.c.StorageRetryInterval); err != nil {
 					return err // cancelled
 				}
